@@ -55,7 +55,7 @@ ASSUMPTIONS = [
 def run_check(prop, tier):
     t0 = time.time()
     q = tier == "quick"
-    lists = ["P1", "F1", "F3", "V1", "V3", "M1"] if q else E.ALL_LISTS
+    lists = ["P1", "P3", "F1", "F2", "F3", "V1", "V2", "V3", "V5", "M1", "M2"] if q else E.ALL_LISTS
     allocs = ["AE"] if q else ["AE", "NP"]
     runs = []
     for l in lists:
